@@ -99,3 +99,16 @@ Proof.
   intros Hh Hi X HX. rewrite <- Hh by (try apply gc_inverse_valid; assumption).
   rewrite (gc_inv_l G C) by assumption. exact Hi.
 Qed.
+
+(* ---- the per-group Jacobians are the chain-rule expressions (property C05, algebraic part) ---- *)
+Record JacLaws (G : GroupOps RS) (valid : list R -> Prop) : Prop := mkJac {
+  jl_inverse : forall X, valid X -> g_inverse_J G X = @mneg RS (g_adj G X);                       (* -Adj(X) *)
+  jl_compose_a : forall X Y, valid X -> valid Y -> g_compose_Ja G X Y = g_adj G (g_inverse G Y);   (* Adj(Y^-1) *)
+  jl_compose_a_inv : forall X Y, valid X -> valid Y ->
+     @mmul RS (g_compose_Ja G X Y) (g_adj G Y) = @mid RS (g_dof G);                                (* = Adj(Y)^-1 *)
+  jl_compose_b : forall X Y, valid X -> valid Y -> g_compose_Jb G X Y = @mid RS (g_dof G);
+  jl_exp : forall t, length t = g_dof G -> g_exp_J G t = g_rjac G t;                                                     (* Jr(t) *)
+  jl_log : forall X, valid X -> g_log_J G X = g_rjacinv G (g_log G X);                                        (* Jr^-1(log X) *)
+  jl_act_v : forall X p, valid X -> length p = g_actdim G ->
+     g_act_Jv G X p = @mblock RS (g_transform G X) 0 0 (g_dim G) (g_dim G)                         (* the rotation block *)
+}.
